@@ -461,6 +461,11 @@ func embedChain(r rng, pEmbed float64) []string {
 	for d := 0; d < depth; d++ {
 		if r.p(0.3) {
 			chain = append(chain, fmt.Sprintf("e%d", r.IntN(2)))
+		} else if r.p(0.12) {
+			// a carrier whose type happens to have a value-receiver Prefix() string method: still
+			// nothing but an untagged embedded struct (the emitter embeds a sibling with the same
+			// method next to it, so that the method is not promoted to the component itself)
+			chain = append(chain, "P0")
 		} else {
 			chain = append(chain, fmt.Sprintf("E%d", r.IntN(2)))
 		}
